@@ -640,3 +640,57 @@ package fpgo
 //@   invariant keys-of-both: forallv(x, has(SS(result), x) == (has(SS(streamSetSelf), x) && has(SS(input), x)))
 //@   invariant intersected: forallv(x, has(SS(result), x) && _visited(x) && SUBTRACTS(x) ==> SS(result)[x] != nil && fresh(SS(result)[x]) && (SS(streamSetSelf)[x] == nil ==> len(*SS(result)[x]) == 0) && (SS(streamSetSelf)[x] != nil ==> forall(j, 0, len(*SS(result)[x]), CONTAINS(*SS(streamSetSelf)[x], (*SS(result)[x])[j]) && CONTAINS(*SS(input)[x], (*SS(result)[x])[j]))))
 //@   invariant others-shared: forallv(x, has(SS(result), x) && !(_visited(x) && SUBTRACTS(x)) ==> SS(result)[x] == SS(streamSetSelf)[x])
+
+// one-line delegations of the set families
+//@ func (MapSetDef).ContainsValue
+//@   prop C04,C05
+//@   requires mapSetSelf != nil
+//@   ensures def: r0 == existsv(x, has(*mapSetSelf, x) && (*mapSetSelf)[x] == input)
+//@ func (MapSetDef).ContainsValue loop 0
+//@   invariant not-yet: forallv(x, _visited(x) ==> (*mapSetSelf)[x] != input)
+//@ func (SetForInterfaceDef).ContainsValue
+//@   prop C04,C05
+//@   requires setSelf != nil
+//@   ensures def: r0 == existsv(x, has(*setSelf, x) && (*setSelf)[x] == input)
+//@ func (SetForInterfaceDef).ContainsValue loop 0
+//@   invariant not-yet: forallv(x, _visited(x) ==> (*setSelf)[x] != input)
+
+//@ func (MapSetDef).Keys
+//@   prop C04,C05
+//@   requires mapSetSelf != nil
+//@   ensures keys: len(r0) == len(*mapSetSelf) && fresh(r0) && forall(i, 0, len(r0), has(*mapSetSelf, r0[i])) && forall(i, 0, len(r0), forall(j, 0, i, r0[j] != r0[i])) && forallv(x, has(*mapSetSelf, x) ==> exists(i, 0, len(r0), r0[i] == x))
+//@ func (SetForInterfaceDef).Keys
+//@   prop C04,C05
+//@   requires setSelf != nil
+//@   ensures keys: len(r0) == len(*setSelf) && fresh(r0) && forall(i, 0, len(r0), has(*setSelf, r0[i])) && forall(i, 0, len(r0), forall(j, 0, i, r0[j] != r0[i])) && forallv(x, has(*setSelf, x) ==> exists(i, 0, len(r0), r0[i] == x))
+//@ func (MapSetDef).Values
+//@   prop C04,C05
+//@   requires mapSetSelf != nil
+//@   ensures values: len(r0) == len(*mapSetSelf) && fresh(r0) && forallv(x, has(*mapSetSelf, x) ==> exists(i, 0, len(r0), r0[i] == (*mapSetSelf)[x]))
+//@ func (SetForInterfaceDef).Values
+//@   prop C04,C05
+//@   requires setSelf != nil
+//@   ensures values: len(r0) == len(*setSelf) && fresh(r0) && forallv(x, has(*setSelf, x) ==> exists(i, 0, len(r0), r0[i] == (*setSelf)[x]))
+
+//@ func (MapSetDef).IsSubsetByKey
+//@   prop C05
+//@   opt dispatch=force
+//@   requires mapSetSelf != nil && isptr(input, MapSetDef) && asptr(input, MapSetDef) != nil
+//@   ensures empty: len(*mapSetSelf) == 0 || len(MSR(input)) == 0 ==> r0 == false
+//@   ensures def: len(*mapSetSelf) > 0 && len(MSR(input)) > 0 ==> r0 == forallv(x, has(*mapSetSelf, x) ==> has(MSR(input), x))
+//@ func (MapSetDef).IsSupersetByKey
+//@   prop C05
+//@   opt dispatch=force
+//@   requires mapSetSelf != nil && isptr(input, MapSetDef) && asptr(input, MapSetDef) != nil
+//@   ensures empty: len(*mapSetSelf) == 0 || len(MSR(input)) == 0 ==> r0 == false
+//@   ensures def: len(*mapSetSelf) > 0 && len(MSR(input)) > 0 ==> r0 == forallv(x, has(MSR(input), x) ==> has(*mapSetSelf, x))
+//@ func (SetForInterfaceDef).IsSubsetByKey
+//@   prop C05
+//@   requires setSelf != nil && input != nil
+//@   ensures empty: len(*setSelf) == 0 || len(*input) == 0 ==> r0 == false
+//@   ensures def: len(*setSelf) > 0 && len(*input) > 0 ==> r0 == forallv(x, has(*setSelf, x) ==> has(*input, x))
+//@ func (SetForInterfaceDef).IsSupersetByKey
+//@   prop C05
+//@   requires setSelf != nil && input != nil
+//@   ensures empty: len(*setSelf) == 0 || len(*input) == 0 ==> r0 == false
+//@   ensures def: len(*setSelf) > 0 && len(*input) > 0 ==> r0 == forallv(x, has(*input, x) ==> has(*setSelf, x))
